@@ -11,7 +11,7 @@ CLAIMED = {
         "that every column of each transport operator sums to one in the interior: interpolation weights sum to 1 and are applied as one "
         "complete consecutive set per source (kick maps are shift-invariant along the kick), Fokker-Planck stencil column sums are 1 with a "
         "defect proportional to the damping decrement confined to |row - zero-energy row| <= 2, identity copies B*N*N cells. "
-        "This is the necessary and sufficient algebraic condition for interior charge conservation; it does not measure rounding.",
+        "This is the necessary and sufficient algebraic condition for interior charge conservation; it does not measure rounding. Also decided: KickMap::apply and FokkerPlanckMap::apply enumerate every cell of every bunch exactly once as destination (n*N*N + cell, full ranges), and index and weight of a stencil point are read from the same table entry.",
    note="Trusted: clang 14 front end, isa-extract, sympy expand. Abstracts float rounding; border rows excluded as in the statement; "
         "OpenCL kernels not analysed (headers absent). Size lemma nx==ny and the ruler model are re-derived from the code on each run.",
    ref="DESIGN.md §3 C01"),
@@ -19,7 +19,7 @@ CLAIMED = {
    text="Proves, in exact real arithmetic and for every fractional offset, grid size and order 1-4, that the interpolation weights "
         "are the Lagrange basis on the nodes the stencil writers actually use (hence partition of unity, exact reproduction of "
         "polynomials of degree < n, unit weight at offset 0), that non-central weights vanish exactly at offset 0, that fraction and "
-        "origin come from one displacement, and that out-of-range sources get weight 0. Decides the code shape, not rounding.",
+        "origin come from one displacement, and that out-of-range sources get weight 0. Decides the code shape, not rounding. The reader side is re-evaluated here (rules of C01/R2 and C08/R1): every weight is applied to the source cell of its own stored index, with the writer's stride.",
    note="Trusted: clang 14 front end, isa-extract, sympy expand. Floating-point rounding is abstracted (exact arithmetic); "
         "bit-for-bit claim rests on R2's structural argument (factor f / dyadic constants). OpenCL kernels not analysed.",
    ref="DESIGN.md §3 C02"),
@@ -39,7 +39,7 @@ CLAIMED["C19"] = dict(cat="other", technique="call-argument role agreement (reso
         "queued (phase, amplitude) folds to (_syncphase, 1) when all amplitudes are zero = the static constructors' arguments; per apply() exactly "
         "one entry is used, recorded and popped, in that order, on every CFG path; the drain moves out everything, clears, and every drain site feeds "
         "appendRFKicks; queue length and loop bound are one variable. These are necessary and, together with the shared _calcKick code, sufficient "
-        "structural conditions for the statement; the numerical kick itself is not evaluated.",
+        "structural conditions for the statement; the numerical kick itself is not evaluated. Per branch of the linearRF switch main must hand the static and the dynamic construction the same expression for every parameter they share.",
    note="Trusted: clang front end, isa-extract, sympy, documented std::queue/vector semantics; alias table main-variable -> parameter role (12 entries, in the rule file). "
         "One genuine defect found and repaired (F1). Noise statistics/spectrum not decided.",
    ref="DESIGN.md §3 C19")
@@ -57,7 +57,7 @@ CLAIMED["C20"] = dict(cat="other", technique="option-table analysis plus a finit
         "nothing but store/notify and the recognised alias idiom writes the map or a bound field, each legacy alias binds exactly its primary's field and "
         "type without a default and - on a four-row truth table per alias evaluated on boost's documented store/notify semantics - yields the specified "
         "precedence, compatibility-only options bind fields nothing reads, command-line and file declarations agree, and parse errors / a missing or "
-        "unreadable config file end the program with a message before any simulation object is built. Exhaustive over the table (72 declarations).",
+        "unreadable config file end the program with a message before any simulation object is built. Exhaustive over the table (72 declarations). A normalising write of a bound field ('/dev/null' to empty) must not be followed by a reachable notify(), which would restore the raw value.",
    note="Trusted: documented boost::program_options semantics (store keeps non-defaulted entries; notify runs notifiers in key order). "
         "Three known findings: a legacy alias in the config file beats the command line (RFVoltage, SyncFreq, steps).",
    ref="DESIGN.md §3 C20")
@@ -66,7 +66,7 @@ CLAIMED["C04"] = dict(cat="other", technique="moment conditions of the extracted
         "equal (1+e1*[damping], e1*p*[damping], e1*[diffusion]) exactly, i.e. the map discretises e1*(f + p f' + f'') with matching damping and diffusion "
         "coefficients (which is what makes sigma=1 stationary, damping-only contract and diffusion-only spread), the gates depend on FPType only, and main "
         "hands e1 = 2/(fs*t_damp*steps) and the FPType option to the constructor and falls back to the identity when e1 <= 0. Convergence, monotonicity "
-        "over time and the stable range of the explicit scheme are run-time behaviour and are NOT decided.",
+        "over time and the stable range of the explicit scheme are run-time behaviour and are NOT decided. The identity maps that stand in for an absent wake or damping copy the whole grid (C01/R4, re-evaluated here).",
    note="Trusted: clang front end, isa-extract, sympy; exact arithmetic; interior rows. PhaseSpace.cpp (moments used to observe the spread) is covered under C09.",
    ref="DESIGN.md §3 C04")
 CLAIMED["C18"] = dict(cat="other", technique="buffer footprint / must-rewrite analysis over the FFT plan bindings and buffer writes extracted from the AST",
@@ -82,7 +82,7 @@ CLAIMED["C06"] = dict(cat="other", technique="writer/reader index-map agreement,
         "and its wake potential read back from the same offset into its own row; the stages pad -> r2c -> Z[i]*F[i] (same i, i in [0,floor(nmax/2))) -> c2r -> scale "
         "run in this order, each reading the buffer the previous one wrote, with plans of length nmax; the only factor after the inverse transform is "
         "wakescalining/nmax with wakescalining = Ib*dt*c/(sigma_z*delta1*sigma_delta*E0); main pairs each field with the impedance of its own length. "
-        "Numerical equality with a reference DFT is NOT decided (FFTW trusted).",
+        "Numerical equality with a reference DFT is NOT decided (FFTW trusted). The four FFT work buffers are resolved to their allocations: forward output and inverse input must not alias (any other aliasing is outside the footprint model and reported as analysis-broken).",
    note="Trusted: FFTW computes the unnormalised DFT pair; clang front end, isa-extract, sympy. CPU path only.",
    ref="DESIGN.md §3 C06")
 CLAIMED["C07"] = dict(cat="other", technique="sign-lattice abstract interpretation of the extracted spectrum/intensity expressions",
@@ -97,7 +97,7 @@ CLAIMED["C03"] = dict(cat="other", technique="symbolic differentiation and serie
         "-tan(a), the drift offset slope slip0*delta1/delta0, both offsets vanish at the zero bins of their own axes, the angle handed to the RF map and slip[0] "
         "are the same const variable 2*pi/steps, both axes have the same cell size; hence the coupling product is -a^2+O(a^4): an elliptic map with fixed sense "
         "and phase advance a+O(a^3), independent of where the grid is centred. Closure after one period, the size of the splitting error and the sinusoidal "
-        "model at finite amplitude are run-time behaviour and are NOT decided.",
+        "model at finite amplitude are run-time behaviour and are NOT decided. The centre the kick machinery adds (updateSM) and subtracts (apply) is re-evaluated here from C01/R2.",
    note="Exact arithmetic; positive-constant assumptions for the sinusoidal sign check. DynamicRFKickMap is covered under C19.",
    ref="DESIGN.md §3 C03")
 CLAIMED["C16"] = dict(cat="other", technique="symbolic model of the std::vector operations (sample count, which index holds what), sign lattice over real/imaginary parts, homogeneity by substitution, pairing on the factory CFG",
@@ -105,7 +105,7 @@ CLAIMED["C16"] = dict(cat="other", technique="symbolic model of the std::vector 
         "values only to indices <= floor(n/2) and the literal zero above; Re Z >= 0 for free space, resistive wall, collimator (under the factory guard) and each parallel-plates "
         "summand (Ai'^2 + u*Ai^2, u > 0, positive prefactor); Z(lambda i)/Z(i) is lambda^(1/3) resp. lambda^(1/2) and Im Z has opposite sign for free space and resistive wall; "
         "the factory adds exactly one contribution in exactly the branches that mark a change, builds every model with its own nfreqs/fmax, and returns nullptr iff nothing was "
-        "selected. The wide-gap/high-frequency limit and sub-cutoff suppression of the parallel-plates model and finiteness of the Airy sums are numerical and NOT decided.",
+        "selected. The wide-gap/high-frequency limit and sub-cutoff suppression of the parallel-plates model and finiteness of the Airy sums are numerical and NOT decided. The two branches of the CSR choice (parallel plates / free space) must be built on the same frequency grid (same n, fundamental, f_max).",
    note="Positivity assumptions on parameters as documented; exact arithmetic. The length of a file impedance is handled under C17.",
    ref="DESIGN.md §3 C16")
 CLAIMED["C09"] = dict(cat="other", technique="per-bunch subscript analysis and formula normal forms from the AST (symbolic accumulators), loop-range coverage, must-reach on the constructor CFG",
@@ -114,7 +114,7 @@ CLAIMED["C09"] = dict(cat="other", technique="per-bunch subscript analysis and f
         "filling[n] = <P[0][n], ws>, projections are Simpson-weighted sums with weights h/3*{1,4,2,..,4,1}; normalize multiplies every cell of bunch n by filling_set[n]/filling[n] or "
         "zeroes an empty bucket over the full ranges (with linearity of the integral this gives the post-normalisation integral filling_set[n]); the copy constructor passes "
         "(axis, oclh, charge, current, filling_set, 1, data) in their roles and the delegated constructor copies all values and recomputes both projections and the integral on "
-        "every path. The discretisation error of the moments is NOT decided.",
+        "every path. The discretisation error of the moments is NOT decided. The accumulators of the moments are reset once per bunch (inside the bunch loop, outside the sum, unconditionally).",
    note="Exact arithmetic; relies on the size lemma nx==ny (one weight vector for both axes). OpenCL path not analysed.",
    ref="DESIGN.md §3 C09")
 CLAIMED["C10"] = dict(cat="other", technique="freshness typestate (forward must-dataflow on main's CFG) with transfer functions from interprocedural read/write effect summaries; sibling-block agreement; dataset/accessor/axis table analysis of HDF5File",
@@ -122,7 +122,7 @@ CLAIMED["C10"] = dict(cat="other", technique="freshness typestate (forward must-
         "recomputed after the last change of the grid it is stored with; that the loop output block and the final block perform the same refresh and append calls with the same "
         "time expression; that every time-indexed dataset has exactly one append site, the record time is written in the same branch as its datasets, each dataset is fed from "
         "the accessor its path names and each axis/unit attribute from the matching axis; and that records are written iff step mod outstep == 0 plus one final record. Numerical "
-        "agreement of stored moments with recomputed ones and absolute unit values are NOT decided.",
+        "agreement of stored moments with recomputed ones and absolute unit values are NOT decided. Object agreement in main (R6): the impedance stored in the file is the one of the field whose wake potential is stored; appendPadded, the wake map and append(ElectricField) use the fields the file was laid out for; all on grid_t1.",
    note="Effect summaries trust a small library model (copy/fill/fft_execute by pointer arguments). One defect repaired (F5 energy axis), one recorded at 7 sites as known "
         "findings (F6: records written on a renormalising step store pre-normalisation projections/moments/wake).",
    ref="DESIGN.md §3 C10")
@@ -147,7 +147,7 @@ CLAIMED["C05"] = dict(cat="other", technique="step-structure analysis of the sim
    text="Decides structural preconditions only: in every iteration wake kick, RF kick, drift and damping/diffusion are applied once each in that order on grids chained t1->t2->t1->t3->t1 "
         "for every combination of map alternatives; at the wake kick the offsets and the source-map table are up to date with the grid they act on, computed from a fresh X projection of "
         "that grid by the wake field bound to it; the offsets are the field's wake potential copied without arithmetic, on the same kick axis as the RF kick (the scaling normal form is "
-        "proved under C06). That the stationary state satisfies the Haissinski relation is a numerical fixed point and is NOT decided.",
+        "proved under C06). That the stationary state satisfies the Haissinski relation is a numerical fixed point and is NOT decided. The reader/writer agreement of the kick machinery the wake goes through (C08/R1, R2, R4) is re-evaluated here.",
    note="One known finding shared with C10 (F6): on renormalising steps the wake is computed before the grid is rescaled.",
    ref="DESIGN.md §3 C05")
 CLAIMED["C11"] = dict(cat="other", technique="structural analysis of the HDF5 hyperslab selection and its size guard; freshness typestate at the loop head for every start kind; error-discipline analysis of the load path",
@@ -156,7 +156,7 @@ CLAIMED["C11"] = dict(cat="other", technique="structural analysis of the HDF5 hy
         "stored values land in the grid or nothing; after any kind of start main recomputes X projection, integral, Y projection and spread before the first step, and the projection the wake "
         "needs is fresh at the loop head on every path; the final block equals the loop output block (C10/R2); the reader runs under try/catch(...), no handler rethrows, failure returns "
         "nullptr, a multi-bunch record fails the size guard because the grid is sized for one bunch, and main null-tests, reports and returns before the first use. That a split run ends in the "
-        "same phase space as an uninterrupted one is a relation between two executions and is NOT decided.",
+        "same phase space as an uninterrupted one is a relation between two executions and is NOT decided. The start-step index is followed from the option field through getter, main's argument, factory parameter and reader parameter and must stay a signed 64-bit integer (the 'minus one = last record' arithmetic relies on it).",
    note="HDF5 C++ API argument order is part of the trusted base. The definite-assignment defect of ps_size for other ranks is reported under C17.",
    ref="DESIGN.md §3 C11")
 CLAIMED["C15"] = dict(cat="other", technique="clamp-on-every-path analysis over the CFGs of all applyTo overriders reachable from main (call-graph resolved), symbolic direction/fixed-point analysis of the tracking formulas",
